@@ -117,6 +117,26 @@ def quest(chk, prog, tier):
         env.vars[xname] = lam
         return it.eval(uexpr, env), it.eval(vexpr, env)
     chk.ob("QUEST.newton", f.ref, "phi_prime == d phi / d lambda", lambda: newton_derivative(prog, f), construct="Newton derivative", **kw)
+    # Newton's iteration finds the LARGEST root only when it starts at (or above) it: the start value is the sum of the weights, the upper bound of the
+    # eigenvalues of K (interpreted with symbolic weights: the start value must be w0 + w1, not a constant that equals it for one choice of weights)
+    starts = [s_ for s_ in body[:widx] if isinstance(s_, ast.Assign) and any(isinstance(t_, ast.Name) and t_.id == xname for t_ in s_.targets)]
+    if not starts:
+        chk.error("QUEST.start: no assignment of the Newton variable `%s` before the loop (cannot decide)" % xname)
+    else:
+        v_ = starts[-1].value
+        txt_ = ast.unparse(v_)
+        uses_w = any(isinstance(x_, ast.Attribute) and x_.attr == "w" and isinstance(x_.value, ast.Name) and x_.value.id == "self" for x_ in ast.walk(v_))
+        is_sum = "sum" in txt_ or (isinstance(v_, ast.BinOp) and isinstance(v_.op, ast.Add))
+        site_ = f.ref + "::start"
+        if uses_w and is_sum:
+            chk.record("QUEST.start", site_, "the Newton iteration for lambda_max starts at the sum of the weights (`%s`)" % txt_[:40])
+        elif isinstance(v_, ast.Constant) or not uses_w:
+            why_ = ("the Newton iteration starts at `%s`, which does not follow the weights: it is the upper bound of the eigenvalues (the sum of the weights) only for "
+                    "weights that happen to sum to it; for other weights the iteration converges to another root of the characteristic polynomial and the attitude is wrong" % txt_[:40])
+            chk.record("QUEST.start", site_, "the Newton iteration starts at the sum of the weights", verdict="VIOLATION", detail=why_)
+            chk.finding("QUEST.start", f.module.rel, f.qname, "Newton start value %s" % txt_[:40], why_, line=starts[-1].lineno)
+        else:
+            chk.error("QUEST.start: the start value `%s` uses the weights but is not recognisably their sum (cannot decide)" % txt_[:50])
     bidx = max((i for i, s_ in enumerate(body[:widx]) if isinstance(s_, ast.Assign) and isinstance(s_.targets[0], ast.Name) and s_.targets[0].id == "B"), default=None)
     if bidx is None:
         chk.error("QUEST: assignment of the attitude profile matrix B not found")
@@ -422,6 +442,50 @@ def am2q_route(chk, prog):
         chk.error("AM2Q: am2q no longer composes am2DCM and dcm2quat (anchor changed): %s" % calls)
 
 
+def triad_same_matrix(chk, prog):
+    """TRIAD.quat: the quaternion representation converts the very matrix the rotation-matrix representation returns (same value number), not its transpose or
+    another intermediate: the two representations then describe one attitude (the converters' direction is C02's business)."""
+    from sa.facts import Facts
+    f = prog.func(F + "triad.py::TRIAD.estimate")
+    chk.touch(f)
+    fa = Facts(f, prog)
+    rets = []
+
+    class R(Facts):
+        def s_Return(self2, s_, st):
+            v_ = s_.value
+            leaves = []
+            todo = [v_]
+            while todo:
+                e = todo.pop()
+                if isinstance(e, ast.IfExp):
+                    todo += [e.body, e.orelse]
+                elif e is not None:
+                    leaves.append(e)
+            for e in leaves:
+                if isinstance(e, ast.Call) and ast.unparse(e.func).split(".")[-1] in ("chiaverini", "dcm2quat", "shepperd", "hughes", "sarabandi", "itzhack") and e.args:
+                    rets.append(("quat", self2.vn(e.args[0], st), e))
+                else:
+                    rets.append(("mat", self2.vn(e, st), e))
+            return super().s_Return(s_, st)
+    R(f, prog).analyse()
+    mats = {v for k, v, _ in rets if k == "mat"}
+    quats = [(v, e) for k, v, e in rets if k == "quat"]
+    site = f.ref + "::representations"
+    if not mats or not quats:
+        chk.error("TRIAD.quat: the rotation-matrix and quaternion returns of TRIAD.estimate were not both found (cannot decide)")
+        return
+    bad = [(v, e) for v, e in quats if v not in mats]
+    if not bad:
+        chk.record("TRIAD.quat", site, "the quaternion is converted from the same matrix value the rotmat representation returns")
+    else:
+        v, e = bad[0]
+        why = "the quaternion representation converts `%s` (value number %s) while the rotation-matrix representation returns %s: the two representations describe different attitudes" % (
+            ast.unparse(e.args[0])[:40], v[:60], sorted(mats)[0][:60])
+        chk.record("TRIAD.quat", site, "both representations describe one attitude", verdict="VIOLATION", detail=why)
+        chk.finding("TRIAD.quat", f.module.rel, f.qname, "quaternion converted from %s" % ast.unparse(e.args[0])[:40], why, line=e.lineno)
+
+
 def am2dcm_scale(chk, prog):
     """AM2Q.dcm: am2DCM(a, m, frame) is a proper rotation whose third column is +-a/|a| and which does not depend on the magnitudes of the two samples
     (AVN with a = s1 E^T g, m = s2 E^T m_ref, s1, s2 > 0 free symbols; compared with the run at s1 = s2 = 1)."""
@@ -626,6 +690,7 @@ def run(chk, prog, tier):
     flae(chk, prog, tier)
     saam(chk, prog)
     triad(chk, prog)
+    triad_same_matrix(chk, prog)
     from props.c07 import flow_rule
     flow_rule(chk, prog)
     stale_cache(chk, prog)
